@@ -270,7 +270,8 @@ def decide_all(case):
                 ran = [e for e in sim.log if e[0] in ("upload", "handler")]
                 if gone:
                     # nothing can be answered; what matters is whether the upload was carried out
-                    out.append("admit" if len(ran) == 1 else ("refuse" if not ran else "admit-with-%d-invocations" % len(ran)))
+                    # (a server may also drop the work for a peer that has left: nothing carried out fits either verdict)
+                    out.append("admit" if len(ran) == 1 else ("gone-nothing-ran" if not ran else "admit-with-%d-invocations" % len(ran)))
                     continue
                 if S.startswith(b"53 "):
                     out.append("refuse" if not ran else "refused-but-upload-ran")
@@ -342,6 +343,8 @@ def run_case(case: dict):
             stats["grey"] += 1
             continue
         stats[ref] += 1
+        if g == "gone-nothing-ran":
+            continue
         if g != ref:
             return viol("wrong-decision", f"layer {case['layer']}: peer {p!r} with allow={case['allow']} deny={case['deny']} "
                         f"default_allow={case['default_allow']} enabled={case['enabled']}: expected {ref}, got {g}",
